@@ -322,6 +322,8 @@ impl<'a> GeneratorState<'a> {
             }
             if self.acc_in_use { self.sasm(PLA)?; }
             self.carry_flag_ok = false;
+            // The shift instructions (and PLA) have changed N and Z
+            self.flags = FlagsState::Unknown;
             Ok(ExprType::Nothing)
         } else {
             unreachable!();
